@@ -337,7 +337,15 @@ func c13TemplateYaml(r *rand.Rand) Case {
 		} else if av.want != nil && err5 == nil && !reflect.DeepEqual(strScalars(m3["out"]), av.want) {
 			fail = append(fail, fmt.Sprintf("template(parseAs yaml) %q stored %#v, expected %#v", av.tmpl, m3["out"], av.want))
 		} else if av.want != nil && err5 != nil {
-			fail = append(fail, fmt.Sprintf("template(parseAs yaml) %q failed: %v", av.tmpl, err5))
+			// (a text the YAML parser itself rejects — a tab where none may stand, when nothing was trimmed — is a clean failure)
+			text := strings.NewReplacer("{{ .a }}", "1", "{{ .b }}", "x", `{{ "" }}`, "").Replace(av.tmpl)
+			if trim {
+				text = strings.TrimSpace(text)
+			}
+			var ctl any
+			if yaml.Unmarshal([]byte(text), &ctl) == nil {
+				fail = append(fail, fmt.Sprintf("template(parseAs yaml) %q failed: %v", av.tmpl, err5))
+			}
 		}
 		// edits of one expansion of an alias do not show in another
 		if mo, ok := m3["out"].(map[string]any); ok && err5 == nil && mo["use"] != nil {
